@@ -125,6 +125,9 @@ where
 
         trace!(@chunk chunk);
 
+        #[cfg(feature = "_verif_hooks")]
+        crate::verif_hooks::add_parsed(chunk.len());
+
         let consumed_byte_count = match self.parser.parse(chunk, false) {
             Ok(c) => c,
             Err(e) => {
